@@ -113,7 +113,7 @@ CHECKS = {
  "C17": dict(
   text=("(a) read-only view: every mutating operation returns the read-only error and leaves the state unchanged, reads are forwarded — for every "
         "history and any underlying store model; a generated obligation proves every mutating Store method found in the live classes is overridden "
-        "by ReadOnlyStore; the correspondence histories also let the owner change the underlying store directly between reads through the view (the view is live) and mount a store through the view, then mutate outside the mount. (b) containment: for every root and key, keyOK implies path and metadata path lie within the root, not keyOK implies every "
+        "by ReadOnlyStore; COMPOSITION with C14's mount model (StoreMountRO.lean, parts tagged read-only view / plain store): for the composite store.read_only().mount(key, other) and any table of plain parts - view_mount_default_unchanged (for EVERY history, any keys, any support function, recursive removedir included, the state under the view never changes), view_mount_refuses_outside(_recursive), view_mount_reads_default(_exact,_mem), view_mount_writes_inside(_single), view_mount_shape_kept, bypass_mount_writes_through (negative witness = seeded change C17-9); the correspondence histories also let the owner change the underlying store directly between reads through the view (the view is live) and mount a store through the view, then mutate outside the mount. (b) containment: for every root and key, keyOK implies path and metadata path lie within the root, not keyOK implies every "
         "FileStore operation is refused; after any history no path outside the root changed. Exhaustive key enumeration (<=4 components from "
         "{a,.,..,'',__metadata__,b.txt}, with/without leading '/') for every operation directly, through a mount and through -R queries in a sandbox."),
   note=("Trusted: Lean kernel; pathlib join / OS resolution as modelled in LiquerModel/StoreFile.lean (pathOf, within); harness sandbox wrapper; "
